@@ -1094,6 +1094,24 @@ func ext۰reflect۰Value۰Pointer(fr *frame, args []value) value {
 	panic(unsupported("reflect.Value.Pointer"))
 }
 
+// UnsafeAddr / Addr().Pointer() as an identity: every addressable cell gets a
+// distinct, stable, non-zero number per path (no arithmetic is meaningful on it).
+func ext۰reflect۰Value۰UnsafeAddr(fr *frame, args []value) value {
+	p := rvAddr(args[0])
+	if p == nil {
+		panic(targetPanicMsg("reflect.Value.UnsafeAddr of unaddressable value"))
+	}
+	if fr.i.ps.addrIDs == nil {
+		fr.i.ps.addrIDs = map[*value]uintptr{}
+	}
+	id, ok := fr.i.ps.addrIDs[p]
+	if !ok {
+		id = uintptr(0x1000 + 16*len(fr.i.ps.addrIDs))
+		fr.i.ps.addrIDs[p] = id
+	}
+	return id
+}
+
 func ext۰reflect۰error۰Error(fr *frame, args []value) value {
 	return args[0]
 }
